@@ -8,11 +8,12 @@ NA = {
  "C09": "audit_verify rebuilds trees through async Azks insertion on the in-memory database; unreachable. The partition-drop behaviour it depends on is a kernel fact that this family could state, but the auditor's verdict itself cannot be decided",
  "C12": "quantifies over schedules of concurrent publishes; Kani does not model concurrency and CBMC's thread support does not apply to tokio tasks",
  "C14": "quantifies over tokio task parallelism, cache timing, cargo feature matrix and process restarts; none is expressible as a bounded symbolic query over this code",
- "C16": "TimedCache is DashMap + tokio::sync::RwLock + Instant: each is individually unsupported by Kani (ICE / unsupported clock_gettime) and hash containers do not terminate under CBMC",
  "C18": "the subject is the ECVRF itself (curve25519 field arithmetic, SHA-512): not bit-blastable; the verifiers are checked against an ideal VRF instead (C06/C07)",
  "C20": "tombstone_value_states and everything it could affect is async storage code; the verifier-side tombstone clauses are decided under C07",
 }
 TEXT = {
+ "C16": ("Symbolic execution of the rustc MIR of the storage manager's own read / write paths around the object cache (set, batch_set, get, get_from_cache_only, flush_cache, and the transaction commit), with the cache, the transaction log and the database as event sources: a record the database rejects is never left in the cache, reads consult log, cache and database in that order and cache exactly what the database returned, a flush reaches the cache. Kernel-level claim: the cache's own behaviour (expiry, eviction, timing) is not decided. The defect F-C16 (fixed) - rejected writes stayed readable through the manager - was found by it.",
+         "own MIR path walker (vk/mirsmt/corowalk.py, cachew.py, commitw.py) + z3; callees opaque; counterexamples confirmed by native_cache (real StorageManager with cache over a database that rejects writes); TimedCache internals, batch_get and operation sequences not covered"),
  "C10": ("Symbolic execution of the rustc MIR of the commit step of a publish (the async StorageManager::commit_transaction, walked as a coroutine with the transaction log, the object cache and the database as event sources) and of the transaction log's begin / commit / rollback: on every path the log is drained first (no transaction left open), a commit whose database write fails as a whole leaves nothing of itself in the object cache and returns the error, and exactly the logged records are written. The same walker decides Directory::publish's own control flow: no transaction left open on any returning path, an error means 'not committed' (nothing fallible after a successful commit), nothing written outside the transaction. Control-flow-level claim; the defects F-C10 (a failed commit stayed in the cache) and F-C10b (an error returned after the commit), both fixed, were found by it.",
          "own MIR path walker (vk/mirsmt/corowalk.py, commitw.py, txn.py) + z3; callees opaque; counterexamples confirmed by native_commitfail (real Directory over a database that refuses the commit write, with and without cache); what the callees (tree insertion, database) do under a failing read is not covered"),
  "C13": ("Two solver-decided facts about the real code. (1) Bounded model checking (Kani/CBMC over the compiled akd crate) of the single node-selection function every reader uses: for ALL stored records and ALL target epochs the selected node is never newer than the target (or NotFound) - the kernel whose defect (F-C13, fixed) let a lagging instance return a root hash labelled with the wrong epoch. (2) Data-abstracted model checking of the request coroutines: the control-flow graphs of all async bodies reachable from get_epoch_hash / lookup / batch_lookup / key_history / audit are extracted from the rustc MIR of /repo and z3's fixedpoint engine decides that no path reads the epoch record twice (the defect F-C13b, fixed, was such a path: a history answer stitched from two epochs). Interleavings themselves are outside the claim.",
@@ -45,10 +46,10 @@ for pid in sorted(registry.PROPERTIES):
         "thorough_cmd": "./check %s thorough" % pid,
         "evidence_file": "/verif/evidence/%s.json" % pid,
         "replay_cmd_template": "./check --replay {path}",
-        "engine": {"C08": "mir-smt", "C10": "mir-smt", "C07": "kani + mir-smt", "C11": "kani + mir-smt", "C13": "kani + mir-smt", "C15": "kani + mir-smt"}.get(pid, "kani"),
+        "engine": {"C08": "mir-smt", "C10": "mir-smt", "C16": "mir-smt", "C07": "kani + mir-smt", "C11": "kani + mir-smt", "C13": "kani + mir-smt", "C15": "kani + mir-smt"}.get(pid, "kani"),
         "level_claimed": {"category": "model_checking", "text": t, "design_ref": "DESIGN.md section 4 (%s)" % pid},
         "level_note": note,
-        "technique": ("bounded model checking of the compiled Rust code with Kani (CBMC + SAT), symbolic inputs via kani::any(), unwinding assertions on, reachability witnesses via kani::cover" if pid not in ("C08", "C10") else ("bounded symbolic execution of rustc MIR into SMT (z3, cross-checked with cvc5)" if pid == "C08" else "symbolic execution of rustc MIR (own path walker over coroutine bodies, callees as events) with z3 deciding the path queries; counterexamples confirmed by a native battery against the real code"))
+        "technique": ("bounded model checking of the compiled Rust code with Kani (CBMC + SAT), symbolic inputs via kani::any(), unwinding assertions on, reachability witnesses via kani::cover" if pid not in ("C08", "C10", "C16") else ("bounded symbolic execution of rustc MIR into SMT (z3, cross-checked with cvc5)" if pid == "C08" else "symbolic execution of rustc MIR (own path walker over coroutine bodies, callees as events) with z3 deciding the path queries; counterexamples confirmed by a native battery against the real code"))
                      + ("; plus symbolic execution of the rustc MIR of the function bodies Kani cannot reach (own walker, z3), counterexamples confirmed by native batteries against the real code" if pid in ("C07", "C11", "C13", "C15") else ""),
     })
 m = {
